@@ -134,6 +134,9 @@ def _check_own(ctx):
                   "the %s record writer does not finish by zero-filling up to offset + size (stale bytes of a previous occupant would remain / the slot extent is not written)" % kind, where=where(rec))
         ctx.sample({"record": kind, "writes": [(r, k7.expr_str(s)) for b, r, s in writes], "estimate": k7.expr_str(payload), "size_field": k7.expr_str(size_field)})
     ctx.floor("sizer-covers-writer", "record fields checked against the estimate", n_fields, 8 if "vf_vu64" in prog.features.get("abyssiniandb", []) else 8)
+    from . import payload
+    payload.check_len_is_len_of_payload(ctx, prog, R)
+    payload.check_stored_length_reads(ctx, prog, R)
     tables.check_tables(ctx, prog, R)
     check_bounded_writer_contract(ctx, prog, R)
 
@@ -235,4 +238,4 @@ def check(ctx):
     _check_own(ctx)
     from .engine import import_rules
     # clause 2: the slot is sized from the estimate and honoured by both record writers
-    import_rules(ctx, "c06", {"writer-arms", "alloc"})
+    import_rules(ctx, "c06", {"writer-arms", "alloc", "large-pop-conservation"})
